@@ -344,8 +344,10 @@ fn union_member(_c: &Cur, members: Vec<OField>, line: usize) -> PResult<OCase> {
                 case.fields = content.inline.clone();
                 case.content.push(("ts.inline-object".into(), content.key.clone()));
             }
-            Some(OTy::Name { base, args }) if base == "undefined" && args.is_empty() => {
+            Some(OTy::Name { base, args }) if base == "undefined" && args.is_empty() && case.payload_optional => {
+                // `content?: undefined` is how a unit variant is written
                 case.payload = None;
+                case.payload_optional = false;
             }
             Some(t) => case.payload = Some(t.clone()),
             None => {}
